@@ -1158,5 +1158,8 @@ func runC16(r *RunCtx) error {
 			return err
 		}
 	}
+	if err := c16BlockRoutines(r); err != nil {
+		return err
+	}
 	return c16RestartTwin(r)
 }
